@@ -25,6 +25,9 @@ pub struct VFile {
     pub len: usize,
     pub pos: usize,
     pub marks: [u8; 9],
+    /// last two bytes of each page (the 48K format keeps PC on the stack: with SP = 0x8000 that
+    /// is the end of the page holding 0x4000-0x7FFF)
+    pub ends: [[u8; 2]; 9],
     pub mark_pos: [usize; 9],
     pub n_pages: usize,
     pub bad_write: bool,
@@ -32,7 +35,7 @@ pub struct VFile {
 
 impl VFile {
     fn new() -> Self {
-        VFile { hdr: [0; 27], tail: [0; 4], tail_pos: usize::MAX, len: 0, pos: 0, marks: [0; 9],
+        VFile { hdr: [0; 27], tail: [0; 4], tail_pos: usize::MAX, len: 0, pos: 0, marks: [0; 9], ends: [[0; 2]; 9],
                 mark_pos: [usize::MAX; 9], n_pages: 0, bad_write: false }
     }
 }
@@ -47,6 +50,7 @@ impl DataRecorder for &mut VFile {
             self.tail_pos = self.pos;
         } else if n == 16384 && self.n_pages < 9 {
             self.marks[self.n_pages] = buf[0];
+            self.ends[self.n_pages] = [buf[16382], buf[16383]];
             self.mark_pos[self.n_pages] = self.pos;
             self.n_pages += 1;
         } else {
@@ -82,6 +86,8 @@ impl LoadableAsset for &mut VFile {
             while i < 9 {
                 if self.mark_pos[i] == self.pos {
                     buf[0] = self.marks[i];
+                    buf[16382] = self.ends[i][0];
+                    buf[16383] = self.ends[i][1];
                 }
                 i += 1;
             }
@@ -99,7 +105,7 @@ fn any_color() -> ZXColor {
     ZXColor::from_bits(b)
 }
 
-fn roundtrip(machine: ZXMachine, fresh_receiver: bool) {
+fn roundtrip(machine: ZXMachine, fresh_receiver: bool, paged: u8) {
     let is48 = machine == ZXMachine::Sinclair48K;
     let mut e = Emulator::<VHost>::new(settings(machine, false, false, false), VContext).ok().unwrap();
     // ---- arbitrary machine state at save time
@@ -115,7 +121,9 @@ fn roundtrip(machine: ZXMachine, fresh_receiver: bool) {
     let border: u8 = kani::any();
     kani::assume(border < 8);
     e.verif_ctl().set_border_color(0, ZXColor::from_bits(border));
-    let latch: u8 = kani::any();
+    // bits 0-2 (the bank paged at 0xC000) are concrete per harness (a symbolic bank makes the page
+    // slices symbolic and the run infeasible); screen / ROM / lock bits stay symbolic
+    let latch: u8 = (kani::any::<u8>() & 0xF8) | paged;
     if !is48 {
         e.verif_ctl().write_7ffd(latch);
     }
@@ -214,7 +222,7 @@ fn roundtrip(machine: ZXMachine, fresh_receiver: bool) {
 }
 
 macro_rules! rt {
-    ($name:ident, $m:expr, $fresh:expr) => {
+    ($name:ident, $m:expr, $fresh:expr, $paged:expr) => {
         #[kani::proof]
         #[kani::unwind(10)]
         #[kani::stub(libm::sqrt, sqrt_stub)]
@@ -222,14 +230,22 @@ macro_rules! rt {
         #[kani::stub(crate::zx::video::screen::ZXScreen::process_clocks, screen_process_clocks_stub)]
         #[kani::stub(crate::zx::controller::ZXController::refresh_memory_dependent_devices, refresh_stub)]
         fn $name() {
-            roundtrip($m, $fresh);
+            roundtrip($m, $fresh, $paged);
         }
     };
 }
-rt!(sna_roundtrip_48k_same, ZXMachine::Sinclair48K, false);
-rt!(sna_roundtrip_128k_same, ZXMachine::Sinclair128K, false);
-rt!(sna_roundtrip_48k_fresh, ZXMachine::Sinclair48K, true);
-rt!(sna_roundtrip_128k_fresh, ZXMachine::Sinclair128K, true);
+rt!(sna_rt_48k_same, ZXMachine::Sinclair48K, false, 0);
+rt!(sna_rt_48k_fresh, ZXMachine::Sinclair48K, true, 0);
+rt!(sna_rt_128k_same_b0, ZXMachine::Sinclair128K, false, 0);
+rt!(sna_rt_128k_same_b1, ZXMachine::Sinclair128K, false, 1);
+rt!(sna_rt_128k_same_b2, ZXMachine::Sinclair128K, false, 2);
+rt!(sna_rt_128k_same_b3, ZXMachine::Sinclair128K, false, 3);
+rt!(sna_rt_128k_same_b4, ZXMachine::Sinclair128K, false, 4);
+rt!(sna_rt_128k_same_b5, ZXMachine::Sinclair128K, false, 5);
+rt!(sna_rt_128k_same_b6, ZXMachine::Sinclair128K, false, 6);
+rt!(sna_rt_128k_same_b7, ZXMachine::Sinclair128K, false, 7);
+rt!(sna_rt_128k_fresh_b0, ZXMachine::Sinclair128K, true, 0);
+rt!(sna_rt_128k_fresh_b5, ZXMachine::Sinclair128K, true, 5);
 
 #[kani::proof]
 #[kani::unwind(10)]
